@@ -171,7 +171,8 @@ pub fn build_by_item_impl(attr: TokenStream, item_impl: &ItemImpl) -> Result<Tok
                         #[automatically_derived]
                         impl #impl_g #binary_trait<#impl_rhs> for #impl_this #where_g {
                             type Output = #output;
-                            fn #binary_func(self, __rhs: #impl_rhs) -> Self::Output {
+                            // Not `Self::Output`: an enum may have a variant named `Output`.
+                            fn #binary_func(self, __rhs: #impl_rhs) -> #output {
                                 <#l as #binary_trait<#r>>::#binary_func(#l_expr, #r_expr)
                             }
                         }
@@ -223,7 +224,7 @@ pub fn build_by_item_impl(attr: TokenStream, item_impl: &ItemImpl) -> Result<Tok
                     #[automatically_derived]
                     impl #impl_g #binary_trait<#rhs> for #this #where_g {
                         type Output = #this;
-                        fn #binary_func(mut self, __rhs: #rhs) -> Self::Output {
+                        fn #binary_func(mut self, __rhs: #rhs) -> #this {
                             <#this as #assign_trait<#rhs>>::#assign_func(&mut self, __rhs);
                             self
                         }
